@@ -81,7 +81,7 @@ fn check_key(b: &Backend, m: &mut M, rep: &mut Report, kind: &str, bytes: &[u8],
 
 pub fn run(ctx: &Ctx) {
     let mut rep = Report::new("C13", &ctx.tier, ctx.seed);
-    rep.rule = "ids (lid / sid / pid) of generated and parsed keys on all six backends: equal to the PASERK definition computed directly (SHA-384[..33] / BLAKE2b-264 over kN || id header || key text) and to the extracted model; stable across clone and serialise/parse; v1 keys given as PEM and as DER; the two backends of a version agree; lid / sid / pid of related keys differ; id strings with 0..70 data bytes parse iff the data has exactly 33 bytes (and round-trip); the pid of secret.public_key() equals the pid of that public key derived independently; KeyId ==, cmp, partial_cmp and Hash agree with the 33 bytes on random, equal and adjacent ids; distinct = (backend, kind, key source) and comparison classes".into();
+    rep.rule = "ids (lid / sid / pid) of generated and parsed keys on all six backends: equal to the PASERK definition computed directly (SHA-384[..33] / BLAKE2b-264 over kN || id header || key text) and to the extracted model; stable across clone and serialise/parse; v1 keys given as PEM and as DER; the two backends of a version agree; lid / sid / pid of related keys differ; id strings with 0..70 data bytes parse iff the data has exactly 33 bytes (and round-trip); id strings with a truncated, missing, doubled or foreign kind label are refused; the pid of secret.public_key() equals the pid of that public key derived independently; KeyId ==, cmp, partial_cmp and Hash agree with the 33 bytes on random, equal and adjacent ids; distinct = (backend, kind, key source) and comparison classes".into();
     let bs = lab::backends();
     let mut m = M::new(&ctx.model);
     let mut g = SplitMix64::new(ctx.seed ^ 0xC13);
@@ -205,6 +205,27 @@ pub fn run(ctx: &Ctx) {
             }
             for _ in 0..10 {
                 pairs.push((g.bytes(33), g.bytes(33)));
+            }
+            // malformed id strings around the header: a truncated, missing or doubled kind, another kind's label — with a
+            // valid 33-byte body — must not parse as this kind of id
+            {
+                let body = lab::b64(&base);
+                let v = kver(b);
+                let k3 = &hdr[1..4]; // "lid" / "pid" / "sid"
+                let other = if kind == "local" { "sid" } else { "lid" };
+                let bad: Vec<String> = vec![
+                    format!("{v}{body}"), format!("{v}.{body}"), format!("{v}..{body}"), format!("{v}.{}.{body}", &k3[..2]), format!("{v}.{}.{body}", &k3[..1]),
+                    format!("{v}.{k3}..{body}"), format!("{v}..{k3}.{body}"), format!("{v}.{k3}{body}"), format!("{v}{k3}.{body}"), format!("{v}.{other}.{body}"),
+                    format!("{v}.{k3}.{body}."), format!(".{k3}.{body}"), format!("{v}.{}.{body}", k3.to_uppercase()),
+                ];
+                let good = mk(&base);
+                for s_bad in bad {
+                    rep.evaluations += 1;
+                    if let Ok(r) = (b.keyid_cmp)(kind, &s_bad, &good) {
+                        rep.violation(&format!("c13.{}.{kind}.malformed-id-accepted", b.name), format!("{} parses {:?} as a {kind} key id (equal to the well-formed one: {})", b.name, s_bad, r.0), json!({"backend": b.name, "kind": kind, "bytes": hex::encode(&base), "what": format!("malformed id {s_bad}")}));
+                    }
+                }
+                rep.nontrivial(format!("{}|malformed-id|{kind}", b.name));
             }
             for (x, y) in pairs {
                 rep.evaluations += 1;
